@@ -42,3 +42,32 @@ Qed.
 (* and the room is not larger than needed: it is one of the candidates *)
 Theorem room_is_a_candidate : forall sizes, sizes <> [] -> In (array_room sizes) sizes /\ In (bytes_room sizes) sizes.
 Proof. intros sizes H. unfold array_room, bytes_room. split; apply list_max_z_in, H. Qed.
+
+(* ------------------------------------------------------------------ distinct parameters, distinct symbols *)
+
+(* The z3 constant of the k-th symbol created for a calldata is named
+     p_<name>_<type | "length">_<uid part>_<counter>
+   texts abstracted by numbers.  uid_of k = the value of the uid() call made while the k-th symbol is created (uid() is
+   a fresh-name stream: injective); tag = whatever stands in the uid position when it is NOT such a call. *)
+Section Symbols.
+  Variable uid_of : nat -> Z.
+  Hypothesis uid_fresh : forall i j, uid_of i = uid_of j -> i = j.
+  Variable tag : Z.
+
+  Definition value_symbol (k : nat) (name typ counter : Z) : Z * Z * Z * Z :=
+    (name, typ, (if value_symbol_uid_fresh then uid_of k else tag), counter).
+  Definition length_symbol (k : nat) (name counter : Z) : Z * Z * Z :=
+    (name, (if length_symbol_uid_fresh then uid_of k else tag), counter).
+
+  (* two different symbols of a calldata never share a z3 constant -- whatever the ABI names and types of the
+     parameters (unnamed parameters, equal names) and whatever the counter *)
+  Theorem distinct_symbols : forall k1 k2, k1 <> k2 ->
+    (forall n1 t1 c1 n2 t2 c2, value_symbol k1 n1 t1 c1 <> value_symbol k2 n2 t2 c2) /\
+    (forall n1 c1 n2 c2, length_symbol k1 n1 c1 <> length_symbol k2 n2 c2).
+  Proof.
+    intros k1 k2 Hk. unfold value_symbol, length_symbol, value_symbol_uid_fresh, length_symbol_uid_fresh. split.
+    - intros n1 t1 c1 n2 t2 c2 H. apply Hk, uid_fresh. congruence.
+    - intros n1 c1 n2 c2 H. apply Hk, uid_fresh. congruence.
+  Qed.
+End Symbols.
+
